@@ -95,13 +95,19 @@ Fixpoint events_ok (sent closed : bool) (es : list event) (os : list obs) : bool
   | _, _ => false
   end.
 
-(* the first close frame observed (sent on the wire or validly received) carrying a recordable code *)
+(* the first close frame observed (sent on the wire or validly received) *)
 Definition first_close (os : list obs) : option (N * bool) :=
-  hd_error (filter (fun '(c, _) => (1 <=? c) && (c <=? 65535)) (flat_map observed_closes os)).
+  hd_error (flat_map observed_closes os).
+
+(* RFC 7.4.2: status code 0 is never used; an application that puts it into a close frame is
+   outside the property (the library then records nothing for that frame) *)
+Definition sent_zero (os : list obs) : bool :=
+  existsb (fun '(c, _) => c =? 0) (flat_map observed_closes os).
 
 Definition session_ok (es : list event) (os : list obs) (code : N) (incoming : bool) : bool :=
   events_ok false false es os
-  && match first_close os with
-     | Some (c, i) => (code =? c) && Bool.eqb incoming i
-     | None => true
-     end.
+  && (sent_zero os
+      || match first_close os with
+         | Some (c, i) => (code =? c) && Bool.eqb incoming i
+         | None => true
+         end).
